@@ -612,6 +612,14 @@ class DataLinkConnection(TransmissionControlObject):
     # enqueue() and dequeue() are called from llc thread context
     #
     def enqueue(self, rcvd_pdu):
+        # The socket state must be examined under the lock that close()
+        # holds. Otherwise a PDU can be queued to a socket that another
+        # thread closes in between, and a CC or DISC would then revive
+        # the closed socket (which is no longer shut down with the link).
+        with self.lock:
+            return self._enqueue(rcvd_pdu)
+
+    def _enqueue(self, rcvd_pdu):
         self.log("enqueue {pdu.name} PDU".format(pdu=rcvd_pdu))
 
         if rcvd_pdu.name not in self.DLC_PDU_NAMES:
